@@ -30,7 +30,7 @@ add("C03", "E1-explore",
 E1NOTE = "Bounded: 8 hand seeds (<=8 nodes, incl. two nested levels of divisions) + one 1100-node chain (fixed 6-item menu) + ids around 255 / above 65535 + all labelled forests <=4 (quick) / <=5 (thorough) nodes, 4 frames, 4x6 pixel frames, BFS depth 2-3 (noseg) / 1-2 (seg). networkx/numpy/skimage trusted."
 
 add("C01", "E1-explore",
-    "Every accepted (state, edit) pair of the bounded state space is followed by undo -> redo -> undo on the same real object; after each step the observable state (nodes, edges, every registered node/edge feature incl. custom ones, array bytes) must equal the recorded pre / post state exactly. Worlds: with/without segmentation, 2D/3D, per-axis positions, pre-built FeatureDict, given non-contiguous ids, all regionprops features.",
+    "Every accepted (state, edit) pair of the bounded state space is followed by undo -> redo -> undo on the same real object; after each step the observable state (nodes, edges, every registered node/edge feature incl. custom ones, array bytes) must equal the recorded pre / post state exactly. Worlds: with/without segmentation, 2D/3D, per-axis positions, pre-built FeatureDict, given non-contiguous ids, all regionprops features, ids around 255 / above 65535, two nested levels of divisions, a 258-frame movie; attribute changes in the 7th significant digit.",
     E1NOTE + " History route (tracks.undo/redo) is used, which calls action.inverse() / inverse().inverse() on the stored action objects.",
     MC, "DESIGN.md 4 C01")
 add("C04", "E1-explore",
@@ -43,47 +43,47 @@ add("C06", "E1-explore",
     "On every reachable state and after every undo/redo: both lookups vs a scan of the graph (no missing, duplicated or stale entries), freshness of next track/lineage/node ids, and get_track_neighbors / has_track_id_at_time for every used and unused id and every t in -1..T vs a linear scan.",
     E1NOTE, MC, "DESIGN.md 4 C06")
 add("C11", "E1-explore",
-    "Every (state, event) pair of the bounded space whose call raises - the alphabet deliberately contains refusal inputs (missing time/track id/position, existing id, unknown node/edge, merge / third child / non-forward without force, forced edits whose later step fails, protected attributes, bad swaps, paint with a refused nested add) - is followed by a comparison of the full snapshot (graph, raw attributes, array, lookups, registry, both history stacks structurally; the id counters are excluded) with the one taken before the call, and by a check that no refresh was emitted.",
+    "Every (state, event) pair of the bounded space whose call raises - the alphabet deliberately contains refusal inputs (missing time/track id/position, existing id, unknown node/edge, merge / third child / non-forward without force, forced edits whose later step fails, protected attributes, bad swaps, paint with a refused nested add) - is (in uint8 worlds also node ids the label array cannot hold) is followed by a comparison of the full snapshot (graph, raw attributes, array, lookups, registry, both history stacks structurally; the id counters are excluded) with the one taken before the call, and by a check that no refresh was emitted.",
     E1NOTE + " For paint the driver restores the painted pixels first (the property's proviso).",
     MC, "DESIGN.md 4 C11")
 add("C20", "E1-explore",
-    "A counting callback on tracks.refresh is read around every call in the bounded space: accepted top-level action / successful undo / redo = exactly one emission (payload = new node for add-node and node-creating paint), refused action = none. Nested composite actions are covered through forced add-edge/add-node, swap and paint events (incl. a stroke that changes nothing). All call sequences of the C02 menus are also run with the counter read on every call: an emission from an undo/redo for which the timeline has nothing to step to is a violation whatever the call returns.",
+    "A counting callback on tracks.refresh is read around every call in the bounded space: accepted top-level action / successful undo / redo = exactly one emission (payload = new node for add-node and node-creating paint), refused action = none. Nested composite actions are covered through forced add-edge/add-node, swap and paint events (incl. a stroke that changes nothing). Histories of 3 and 300 accepted edits followed by complete unwinding / rewinding / redo at the top / a new edit are judged call by call. All call sequences of the C02 menus are also run with the counter read on every call: an emission from an undo/redo for which the timeline has nothing to step to is a violation whatever the call returns.",
     E1NOTE, MC, "DESIGN.md 4 C20")
 
 SEGNOTE = "Bounded: 6-7 hand seeds with rectangular masks in 4 frames of 4x6 (2D) / 2x4x6 (3D) pixels, stroke menu of DESIGN.md 3.2 (inside / whole / straddling / two masks / background x erase / every label of the frame / new label x track ids x force), BFS depth 1-3. skimage.regionprops trusted."
 E2M = "explicit-state model checking of the implementation against a reference model (exhaustive enumeration of all call sequences up to a length bound, lock-step list+cursor / set model, no state merging)"
 
 add("C02", "E2-histories",
-    "All sequences over {edit_1..edit_6, undo, redo} up to length 5 (quick) / 6-7 (thorough) for three menus (forced add-edge / add-node nesting other user actions, swap, delete, set-attr; paint strokes that nest delete-node / add-node) plus all sequences over the full state-dependent alphabet + undo + redo up to length 2-3 are executed from scratch on fresh real objects in lock step with a 10-line timeline model (list of observed states + cursor, undone steps appended in reverse). Checked after every call: return value, state == timeline[cursor] (so one undo after any accepted action - however many primitives or nested user actions it contains - lands on the previous state), a False step changes nothing; at every leaf undo-until-False must visit timeline[cursor::-1]. C03-C06 invariants are re-checked after every undo/redo. Further 4-6 item menus run to length 7-9: edits that depend on each other (A, B, undo, undo, C, undo, undo[, undo]) on a chain, on lineage-changing edits and on strokes, a change in the 7th digit of a value, cuts above two nested divisions, and a 1100-node chain.",
+    "All sequences over {edit_1..edit_6, undo, redo} up to length 5 (quick) / 6-7 (thorough) for three menus (forced add-edge / add-node nesting other user actions, swap, delete, set-attr; paint strokes that nest delete-node / add-node) plus all sequences over the full state-dependent alphabet + undo + redo up to length 2-3 are executed from scratch on fresh real objects in lock step with a 10-line timeline model (list of observed states + cursor, undone steps appended in reverse). Checked after every call: return value, state == timeline[cursor] (so one undo after any accepted action - however many primitives or nested user actions it contains - lands on the previous state), a False step changes nothing; at every leaf undo-until-False must visit timeline[cursor::-1]. C03-C06 invariants are re-checked after every undo/redo. Further 4-6 item menus run to length 7-9: edits that depend on each other (A, B, undo, undo, C, undo, undo[, undo]) on a chain, on lineage-changing edits and on strokes, a change in the 7th digit of a value, cuts above two nested divisions, and a 1100-node chain; histories of 3 and 300 accepted edits followed by complete unwinding / rewinding / redo at the top / a new edit after unwinding, every call against the timeline.",
     "Bounded by menu and length; no state merging (futures depend on the hidden stacks). The model/implementation binding is total within the bound: every enumerated sequence is an implementation trace.",
     E2M, "DESIGN.md 4 C02")
 add("C07", "E1-explore",
     "In segmentation worlds (2D+t and 3D+t) every reachable state and every state after undo/redo is checked for label<->node one-to-one correspondence (every node labels >=1 pixel and only in its frame, every label is a node, get_pixels exact); every paint/erase transition is checked byte-for-byte against the array as painted by the driver, undo against the pre-paint bytes, redo against the painted bytes. All call sequences up to length 4 / 7 (quick) over two stroke menus are compared with the timeline model (array restored bit for bit by every undo / redo); strokes leaving 0 / 1 / 2 / 5 pixels of a 12-pixel and of a 104 640-pixel mask (erase / neighbouring label / new label, with and without scale) are checked for node removal, area, correspondence and undo.",
     SEGNOTE, MC, "DESIGN.md 4 C07")
 add("C08", "E1-explore",
-    "For every reachable state of segmentation worlds with scale None / isotropic / anisotropic and feature subsets {core, +circularity, +ellipse axes, all regionprops} in 2D and 3D, after every edit, undo and redo: area and position vs an independent numpy reference (count x voxel, scaled mean index), and every enabled regionprops feature vs a from-scratch SolutionTracks built on a copy of the array (exact equality). All sequences that switch area / pos / circularity / ellipse axes off and on around mask edits, undo and redo (E2, length 3-4) are held to the same oracles.",
+    "For every reachable state of segmentation worlds with scale None / isotropic / anisotropic and feature subsets {core, +circularity, +ellipse axes, all regionprops} in 2D and 3D, after every edit, undo and redo: area and position vs an independent numpy reference (count x voxel, scaled mean index), and every enabled regionprops feature vs a from-scratch SolutionTracks built on a copy of the array (exact equality). All sequences that switch area / pos / circularity / ellipse axes off and on around mask edits, undo and redo (E2, length 3-4) are held to the same oracles. One-pixel edits (corner / next to the centroid / grow) of masks of 12, 2 500 and 104 640 pixels are checked after edit, undo and redo; node ids above 65535.",
     SEGNOTE + " numpy reference uses rel_tol 1e-12; differential oracle is exact.", MC, "DESIGN.md 4 C08")
 add("C09", "E1-explore",
     "For every reachable state of segmentation worlds with iou enabled (consecutive-frame and frame-skipping edges with non-trivial overlap), after every edit, undo and redo: stored IoU of every edge vs exact Fraction |A&B|/|A|B| on the array, and incremental value vs bulk value computed by a from-scratch twin with enable_features(['iou']). Enabling iou at any point of a history: all sequences over {enable, disable, strokes incl. one that makes an overlap exactly 0, add/delete node, undo, redo} up to length 3-4 (E2) are held to the same oracle. Label widths: uint8 arrays with ids whose products wrap (16*32), ids around 255 and above 2**16 whose packed pair keys / products wrap in 32 bits.",
     SEGNOTE, MC, "DESIGN.md 4 C09")
 add("C10", "E2-histories",
-    "All sequences up to length 3-4 (quick) / 4-5 (thorough) over {enable(F), disable(F), enable/disable(unknown, also listed after a valid key), edits, protected set-attr, undo, redo} on segmentation and non-segmentation tracks built with and without a pre-built FeatureDict, in lock step with a set model (static + enabled). After every call: registry == static+enabled, annotator active set == enabled, all values of every enabled feature equal the C04/C05/C06/C08/C09 reference oracles, raw values of disabled features unchanged by edits, unknown key -> KeyError and identical snapshot, managed attributes and time refused by set-attr whether enabled or not.",
+    "All sequences up to length 3-4 (quick) / 4-5 (thorough) over {enable(F), disable(F), enable/disable(unknown, also listed after a valid key), edits, protected set-attr, undo, redo} on segmentation and non-segmentation tracks built with and without a pre-built FeatureDict, in lock step with a set model (static + enabled). After every call: registry == static+enabled, annotator active set == enabled, all values of every enabled feature equal the C04/C05/C06/C08/C09 reference oracles, raw values of disabled features unchanged by edits, unknown key -> KeyError and identical snapshot, managed attributes and time refused by set-attr whether enabled or not. Also a uint8 world with ids 16..64, and area / position switched off around a one-pixel edit of masks of 12, 2 500 and 104 640 pixels.",
     "Two genuine defects around switching the core id features of a SolutionTracks are recorded in known_findings.json (KF-C10-*) and reported as KNOWN-FINDING; everything outside those two history classes is reported as VIOLATION.",
     E2M, "DESIGN.md 4 C10")
 
 E3M = "small-scope exhaustive enumeration of all inputs up to a size bound, each executed on the real function and compared with a brute-force reference (bounded model checking of a pure function by explicit enumeration)"
 
 add("C13", "E3-smallscope",
-    "All label arrays of shape 2x1x3 over labels {0..2} (quick) / {0..3} (thorough) x all non-empty subsets of the (time,label) pairs present x all injective assignments to node ids {0..3}/{0..4} (identity, permutations and chains such as 1->2,2->1, ids equal to other labels, label reuse across frames, unlisted labels, id 0), a 3D+t variant (2x2x1x2) and uint8 source arrays with node ids 256 / 257 / 300, through relabel_segmentation directly and through tracks_from_df(df, segmentation) (which adds the 'ids equal => fast path'); oracle: per-pixel out[t,p] = node(t,in[t,p]) (+1 if id 0 present, graph shifted too), background elsewhere.",
+    "All label arrays of shape 2x1x3 over labels {0..2} (quick) / {0..3} (thorough) x all non-empty subsets of the (time,label) pairs present x all injective assignments to node ids {0..3}/{0..4} (identity, permutations and chains such as 1->2,2->1, ids equal to other labels, label reuse across frames, unlisted labels, id 0), a 3D+t variant (2x2x1x2), uint8 source arrays with node ids 256 / 257 / 300 and six-digit labels / ids that differ by one, through relabel_segmentation directly and through tracks_from_df(df, segmentation) (which adds the 'ids equal => fast path'); oracle: per-pixel out[t,p] = node(t,in[t,p]) (+1 if id 0 present, graph shifted too), background elsewhere.",
     "Bounded array shape and id range; pandas/dask trusted.", E3M, "DESIGN.md 4 C13")
 add("C17", "E3-smallscope",
-    "All ordered lists of <=3 (quick) / <=4 (thorough; 16-name vocabulary, plus <=3 over all 24) distinct column names from a vocabulary built from the code's own key, display-name and value-name tables plus case variants and unrelated names, x required-key sets {[time],[time,id,parent_id]} x ndim {3,4}; same for edge maps (<=5 names of 8). Oracle: flattened values of the returned map == the input columns, each exactly once, none invented; a column spelled like a required key or seg_id maps to that key.",
+    "All ordered lists of <=3 (quick) / <=4 (thorough; 16-name vocabulary, plus <=3 over all 24) distinct column names from a vocabulary built from the code's own key, display-name and value-name tables plus case variants and unrelated names, x required-key sets {[time],[time,id,parent_id]} x ndim {3,4}; same for edge maps (<=5 names of 8); wide headers of 9-17 columns (one column per node feature in each of three spellings x further columns x column orders). Oracle: flattened values of the returned map == the input columns, each exactly once, none invented; a column spelled like a required key or seg_id maps to that key.",
     "Vocabulary-bounded; difflib behaviour trusted.", E3M, "DESIGN.md 4 C17")
 add("C18", "E3-smallscope",
-    "All multisets of <=4 (quick) / <=5 (thorough) points on the lattice frames {0..4} x positions {0..2} (embedded in 2-D and 3-D, with and without anisotropic scale) x max distance {1,1.5,2}, and all label arrays 5x1x3 with globally unique labels from <=3/4 detections with IoU requested (int64 labels 1..4 and uint8 labels 16/32/48 whose products wrap): every pattern of empty frames and gaps occurs, incl. two populated frames on both sides of a gap. Oracle: nodes = detections with time/scaled centroid/area, edge iff next frame and distance <= max (exact on the integer lattice), IoU by pixel counting.",
+    "All multisets of <=4 (quick) / <=5 (thorough) points on the lattice frames {0..4} x positions {0..2} (embedded in 2-D and 3-D, with and without anisotropic scale) x max distance {1,1.5,2}, and all label arrays 5x1x3 with globally unique labels from <=3/4 detections with IoU requested (int64 labels 1..4 and uint8 labels 16/32/48 whose products wrap): every pattern of empty frames and gaps occurs, incl. two populated frames on both sides of a gap; dense frames: all 9-12-point subsets of a 4x3 lattice and all 13-15-detection subsets of the 5x3 lattice. Oracle: nodes = detections with time/scaled centroid/area, edge iff next frame and distance <= max (exact on the integer lattice), IoU by pixel counting.",
     "Lattice-bounded; scipy KDTree and skimage.regionprops trusted.", E3M, "DESIGN.md 4 C18")
 add("C19", "E3-smallscope",
-    "ensure_unique_labels on all 65 536 arrays 4x1x2 over {0,1,2,5}, all multi-hypothesis arrays 2x2x1x2, 3D frames, three hypotheses, 5-D (h,t,z,y,x) arrays and non-C-contiguous inputs (thorough: also 3x1x3 over {0,1,3}): no label in two frames/hypotheses, per-frame partition and background unchanged. relabel_segmentation_with_track_id on all labelled forests <=4/5 nodes x {labels = ids, labels reused across frames} x {with / without a detection missing from the solution}: same label iff same maximal unbranched segment, non-solution detections removed.",
+    "ensure_unique_labels on all 65 536 arrays 4x1x2 over {0,1,2,5}, all multi-hypothesis arrays 2x2x1x2, 3D frames, three hypotheses, 5-D (h,t,z,y,x) arrays, uint8 / uint16 arrays whose offset labels pass the dtype maximum and non-C-contiguous inputs (thorough: also 3x1x3 over {0,1,3}): no label in two frames/hypotheses, per-frame partition and background unchanged. relabel_segmentation_with_track_id on all labelled forests <=4/5 nodes x {labels = ids, labels reused across frames} x {with / without a detection missing from the solution}, plus all 5-node forests with two divisions and 6-8-node seeds with nested / parallel divisions: same label iff same maximal unbranched segment, non-solution detections removed.",
     "Bounded shapes and label values.", E3M, "DESIGN.md 4 C19")
 
 add("C12", "E3-smallscope",
